@@ -444,6 +444,13 @@ def params_list(tier):
                     if tier == "quick" and (b[2] != 200 or mtu != 1500):
                         continue
                     out.append((api, size, mtu, ("drop", "delay8"), b, "frag", "cs", 1, 10))
+    # the client's socket refuses one send (sendto raises inside update()): the datagram never left, the message is still owed
+    for api in ("c.send_guaranteed", "c.send(retry=-1)"):
+        for size in ((0, 40, 1434, 2500) if tier == "quick" else (0, 1, 40, 1434, 1435, 2500, 5000)):
+            for other in (False, True):
+                out.append((api, size, 1500, ("sendfail",), None, other, "cs", 1, 8))
+                if tier == "thorough":
+                    out.append((api, size, 1500, ("sendfail", "drop"), ("s2c", 0, 13), other, "cs", 1, 8))
     # the message is queued behind a long guaranteed transfer (no faults at all): whatever order the fragments leave in, it arrives
     for api in ("c.send_guaranteed", "s.send_guaranteed"):
         for size in ((2049, 2148, 3172) if tier == "quick" else (1435, 2049, 2148, 2500, 3172, 4200, 5000)):
